@@ -4,7 +4,7 @@
    fault tail).  Executable definitions only; proofs in Proofs/Fault.v. *)
 From Coq Require Import List NArith Bool Arith.
 Import ListNotations.
-From OV Require Import Base.Bytes Base.Cases Base.ErrClass Model.Latch Gen.Continuable Model.Chunk.
+From OV Require Import Base.Bytes Base.Cases Base.ErrClass Model.Latch Gen.Continuable Gen.FaultWrap Model.Chunk.
 
 Definition rcls_eqb (a b : rcls) : bool :=
   match a, b with
@@ -45,23 +45,6 @@ Definition fault_classes_pre_f10 (fmt : nat) : list rcls :=
 Definition transform_terminal (fmt : nat) (c : rcls) : bool :=
   negb (continuable_ingester (fmt_cont fmt) c).
 
-(* Correspondence cases written by harness/cmd/c16. *)
-Inductive fcase :=
-| FProbe (failed : bool)
-    (* NewTransform's BOM probe met the fault on its very first read: NewTransform must fail *)
-| FReader (fmt : nat) (c : rcls) (cont : bool) (terminal : bool)
-| FComp (c : ccase).
-
-Definition check_case (x : fcase) : bool :=
-  match x with
-  | FComp c => Chunk.check_case c
-  | FProbe failed => failed
-  | FReader fmt c cont terminal =>
-      existsb (rcls_eqb c) (fault_classes fmt)
-      && Bool.eqb cont (fmt_cont fmt c)
-      && Bool.eqb terminal (transform_terminal fmt c)
-  end.
-
 (* ---- fixedlength/reader.go readByHeaderFooterEnvelope: how an envelope starts ----------------- *)
 (* Over what the line reader delivers from here on (the lines ls, then the error e): readLine skips
    empty lines; a read error other than io.EOF is wrapped into the fatal ErrInvalidEnvelope; the
@@ -74,3 +57,126 @@ Definition hf_envelope_start (headers : list (bytes -> bool)) (ls : list bytes) 
   | [] => match e with IoEOF => HfEOF | _ => HfFatal end
   | l :: _ => if existsb (fun h => h l) headers then HfEnvelope l else HfEOF
   end.
+
+(* ---- fixedlength/reader.go (old fixed-length), over what the line reader delivers ------------- *)
+(* The line reader layer (Model/Chunk.v) hands out the lines ls and then the error e.  The
+   functions below are the sequence of results of the reader's successive Read calls, up to and
+   including the first error.  Which error value a failing read is turned into, the end-of-input
+   test and what a line matching no header gives are taken from Gen/FaultWrap.v (extracted from
+   the source on every run). *)
+Inductive fl_result := FlNode (first_line : bytes) | FlRes (c : rcls).
+
+Definition fl_result_eqb (a b : fl_result) : bool :=
+  match a, b with
+  | FlNode x, FlNode y => bytes_eqb x y
+  | FlRes x, FlRes y => rcls_eqb x y
+  | _, _ => false
+  end.
+
+(* `err == io.EOF` as the code tests it *)
+Definition fl_is_eof (identity : bool) (e : ioerr) : bool := ioerr_eqb e IoEOF || negb identity.
+
+(* by_rows envelopes (readByRowsEnvelope): i = rows of the current envelope read so far *)
+Fixpoint fl_rows_run (rows i : nat) (first : bytes) (ls : list bytes) (e : ioerr) : list fl_result :=
+  match ls with
+  | [] => [if fl_is_eof fixedlength_rows_eof_is_identity e && (i =? 0) then FlRes RcEOF
+           else FlRes wrap_fixedlength_rows]
+  | l :: r =>
+      if is_nil l then fl_rows_run rows i first r e            (* readLine skips empty lines *)
+      else
+        let first' := if i =? 0 then l else first in
+        if S i =? rows then FlNode first' :: fl_rows_run rows 0 [] r e
+        else fl_rows_run rows (S i) first' r e
+  end.
+
+(* by_header_footer envelopes (readByHeaderFooterEnvelope + Read's loop over not_target ones) *)
+Record hf_env := mkHfEnv { hf_header : bytes -> bool; hf_footer : bytes -> bool; hf_not_target : bool }.
+
+Fixpoint hf_find (envs : list hf_env) (idx : nat) (l : bytes) : option nat :=
+  match envs with
+  | [] => None
+  | en :: r => match idx with
+               | S k => option_map S (hf_find r k l)
+               | O => if hf_header en l then Some 0 else option_map S (hf_find r 0 l)
+               end
+  end.
+
+(* cur = None: at the start of an envelope; Some (idx, first line): inside envelope idx *)
+Fixpoint hf_run (envs : list hf_env) (idx : nat) (cur : option (nat * bytes)) (ls : list bytes) (e : ioerr)
+  : list fl_result :=
+  match ls with
+  | [] =>
+      match cur with
+      | None => [if fl_is_eof fixedlength_hf_eof_is_identity e then FlRes RcEOF else FlRes wrap_fixedlength_hf_first]
+      | Some _ => [FlRes wrap_fixedlength_hf_body]     (* "incomplete envelope", EOF included *)
+      end
+  | l :: r =>
+      if is_nil l then hf_run envs idx cur r e
+      else
+        match cur with
+        | None =>
+            match hf_find envs idx l with
+            | None => [FlRes fixedlength_hf_nomatch]      (* reader.go: return nil, io.EOF *)
+            | Some j =>
+                let en := nth j envs (mkHfEnv (fun _ => false) (fun _ => false) false) in
+                if hf_footer en l then
+                  (if hf_not_target en then hf_run envs j None r e else FlNode l :: hf_run envs j None r e)
+                else hf_run envs j (Some (j, l)) r e
+            end
+        | Some (j, first) =>
+            let en := nth j envs (mkHfEnv (fun _ => false) (fun _ => false) false) in
+            if hf_footer en l then
+              (if hf_not_target en then hf_run envs j None r e else FlNode first :: hf_run envs j None r e)
+            else hf_run envs j cur r e
+        end
+  end.
+
+(* F27's guard: every non-empty line at which an envelope starts matches a header *)
+Fixpoint hf_all_match (envs : list hf_env) (idx : nat) (cur : option nat) (ls : list bytes) : bool :=
+  match ls with
+  | [] => true
+  | l :: r =>
+      if is_nil l then hf_all_match envs idx cur r
+      else
+        match cur with
+        | None =>
+            match hf_find envs idx l with
+            | None => false
+            | Some j =>
+                let en := nth j envs (mkHfEnv (fun _ => false) (fun _ => false) false) in
+                if hf_footer en l then hf_all_match envs j None r else hf_all_match envs j (Some j) r
+            end
+        | Some j =>
+            let en := nth j envs (mkHfEnv (fun _ => false) (fun _ => false) false) in
+            if hf_footer en l then hf_all_match envs j None r else hf_all_match envs j cur r
+        end
+  end.
+
+(* Correspondence cases written by harness/cmd/c16. *)
+Inductive fcase :=
+| FProbe (failed : bool)
+    (* NewTransform's BOM probe met the fault on its very first read: NewTransform must fail *)
+| FReader (fmt : nat) (c : rcls) (cont : bool) (terminal : bool)
+| FComp (c : ccase)
+| FRows (rows : nat) (ls : list bytes) (e : ioerr) (obs : list (option rcls))
+    (* old fixed-length, by_rows: the lines the real line reader delivered over this input and
+       fault, and the results of the real reader's Read calls (None = a node) *)
+| FHf (envs : list (bytes * bytes * bool)) (ls : list bytes) (e : ioerr) (obs : list (option rcls)).
+    (* the same for by_header_footer envelopes given as (header prefix, footer prefix, not_target) *)
+
+Definition fl_proj (r : fl_result) : option rcls := match r with FlNode _ => None | FlRes c => Some c end.
+Definition mk_env (x : bytes * bytes * bool) : hf_env :=
+  let '(h, f, nt) := x in mkHfEnv (prefix_eqb h) (prefix_eqb f) nt.
+
+Definition check_case (x : fcase) : bool :=
+  match x with
+  | FComp c => Chunk.check_case c
+  | FRows rows ls e obs => list_eqb (opt_eqb rcls_eqb) (map fl_proj (fl_rows_run rows 0 [] ls e)) obs
+  | FHf envs ls e obs => list_eqb (opt_eqb rcls_eqb) (map fl_proj (hf_run (map mk_env envs) 0 None ls e)) obs
+  | FProbe failed => failed
+  | FReader fmt c cont terminal =>
+      existsb (rcls_eqb c) (fault_wrap fmt)
+      && Bool.eqb cont (fmt_cont fmt c)
+      && Bool.eqb terminal (transform_terminal fmt c)
+  end.
+
